@@ -36,6 +36,19 @@ func c08Case(p lib.Parser, r *core.Rand) gen.Case {
 		sh["opts"], sh["props"] = 0, 0
 		return gen.Case{Bytes: l.Encode(), Shape: sh}
 	}
+	// correctly signed inputs half of the time, so that the verification outcome is among the
+	// things that must not change when the buffer is overwritten
+	if (p.Kind == "leaseset" || p.Kind == "encleaseset") && r.Chance(1, 2) {
+		st := []int{7, 11, 0}[r.Pick(3)]
+		var sc signedCase
+		if p.Kind == "leaseset" {
+			sc = signedLeaseSet(r, st)
+		} else {
+			sc = signedELS(r, st, r.Chance(1, 3), []int{7, 11, 0}[r.Pick(3)])
+		}
+		sc.shape["signed"] = true
+		return gen.Case{Bytes: sc.bytes, Shape: sc.shape}
+	}
 	return gen.WellFormed(p.Kind, p.Arg, r)
 }
 
